@@ -17,12 +17,16 @@ import vlib
 VAL = {'F': 0, 'T': 1, 'U': 2}
 
 
-def generate(cfg, rd, timeout):
+def generate(cfg, rd, timeout, walks=1500):
     """runs TLC on SatCoreGen streaming its output to a file; yields the tests"""
     out = os.path.join(rd, 'gen-%s.txt' % cfg)
     md = os.path.join(rd, 'md-' + cfg)
     cmd = ['java', '-XX:+UseParallelGC', '-Xmx6g', '-Xss64m', '-cp', vlib.TLA_CP, 'tlc2.TLC', '-workers', '1', '-noGenerateSpecTE',
            '-metadir', md, '-config', cfg, 'SatCoreGen.tla']
+    sim = 'sim' in cfg      # random walks over the model instead of the exhaustive search
+    if sim:
+        cmd[cmd.index('-workers') + 1] = '4'
+        cmd[-1:-1] = ['-simulate', 'num=%d' % walks, '-depth', '18', '-seed', '20260926']
     with open(out, 'w') as fh:
         try:
             rc = subprocess.run(cmd, cwd=vlib.SPEC, stdout=fh, stderr=subprocess.STDOUT, timeout=timeout).returncode
@@ -30,9 +34,11 @@ def generate(cfg, rd, timeout):
             raise vlib.CheckError('SatCoreGen/%s: timeout' % cfg)
     tail = subprocess.run(['tail', '-n', '12', out], capture_output=True, text=True).stdout
     m = re.search(r'(\d+) states generated, (\d+) distinct states found, 0 states left', tail)
+    if sim:
+        m = re.search(r'The number of states generated: (\d+)()', tail)
     if rc != 0 or not m:
         raise vlib.CheckError('SatCoreGen/%s failed (rc=%d):\n%s' % (cfg, rc, tail))
-    return out, {'module': 'SatCoreGen', 'cfg': cfg, 'states_generated': int(m.group(1)), 'distinct_states': int(m.group(2))}
+    return out, {'module': 'SatCoreGen', 'cfg': cfg, 'states_generated': int(m.group(1)), 'distinct_states': int(m.group(2) or 0)}
 
 
 def tests_of(path):
@@ -58,6 +64,8 @@ def translate(t):
             lines.append(js({'e': 'new_clause', 'lits': [lit(x) for x in c[1]]}))
         elif c[0] == 'assume':
             lines.append(js({'e': 'assume', 'p': lit(c[1])}))
+        elif c[0] == 'check':
+            lines.append(js({'e': 'check', 'lits': [lit(x) for x in c[1]]}))
         else:
             lines.append(js({'e': c[0]}))
     return lines
@@ -93,8 +101,8 @@ def run(ev, prop, tier, cfgs, max_deviating=400, build='dbg', limit=None):
     rd = vlib.run_dir('%s-satimpl' % prop)
     total, exact, deviating, first_dev = 0, 0, [], None
     for cfg in cfgs:
-        path, stats = generate(cfg, rd, 900 if tier == 'quick' else 3400)
-        stats['what'] = 'test generation: one test per transition of SatCoreImpl (%s)' % cfg
+        path, stats = generate(cfg, rd, 900 if tier == 'quick' else 3400, 1500 if tier == 'quick' else 30000)
+        stats['what'] = ('test generation: random walks of up to 18 calls over SatCoreImpl (%s)' if 'sim' in cfg else 'test generation: one test per transition of SatCoreImpl (%s)') % cfg
         stats['wall_s'] = 0
         ev.cov['models'].append(stats)
         chunk = []
